@@ -8,12 +8,12 @@ def _c10_nontrivial(cf):
 
 CONFIG = dict(
     correspondence="GoImap.ClientFault (Model/ClientFault.lean: reader / caller / closer / failing-writer transition system over the abstract transcript) vs the real imapclient.Client on an in-memory connection with a scripted peer: class (ok/err/ret/-) of every blocking call of the caller's program, Close returned, reader goroutine exited, read deadline armed at the cut, class of a command issued after a write fault",
-    rule="corpus of client transcripts (quick 23 scenarios / thorough 47: NOOP, LOGIN incl. literal argument, AUTHENTICATE PLAIN, STARTTLS refused and accepted, SELECT, LIST, STATUS, SEARCH/ESEARCH, FETCH with literals of 0..5000 bytes / two literals / two messages / none, STORE, EXPUNGE, APPEND, IDLE, COPY, MOVE, 2 and 3 pipelined commands, a whole session, the plain commands) x every byte offset of the server stream (quick: greeting offsets in four scenarios, literal bodies > 48 bytes sampled) x {clean EOF, read error, write error at the client's next write, stall + Client.Close, stall + the client's own read deadline (virtual clock)} x the consumption modes of streaming commands (Collect / Next-loop with literal Read / Close); non-trivial = a real cut (not the healthy run); distinct = different case line",
+    rule="corpus of client transcripts (quick 25 scenarios / thorough 49: NOOP, LOGIN incl. literal argument, AUTHENTICATE PLAIN (also completed by the server before the SASL answer was requested), STARTTLS refused and accepted, SELECT, LIST, STATUS, SEARCH/ESEARCH, FETCH with literals of 0..5000 bytes / two literals / two messages / none, STORE, EXPUNGE, APPEND, IDLE, COPY, MOVE, 2 and 3 pipelined commands, a command issued after the connection died, a whole session, the plain commands) x every byte offset of the server stream (quick: greeting offsets in four scenarios, literal bodies > 48 bytes sampled) x {clean EOF, read error, write error at the client's next write, stall + Client.Close, stall + the client's own read deadline (virtual clock)} x the consumption modes of streaming commands (Collect / Next-loop with literal Read / Close); non-trivial = a real cut (not the healthy run); distinct = different case line",
     nontrivial=_c10_nontrivial,
-    trusted=["the in-memory connection (netmem.go: buffered pipe, injected read/write errors, virtual read deadline, quiescence signal) stands for the kernel socket", "goroutine accounting by runtime.Stack filtered for imapclient.(*Client).read, one case at a time per worker process", "watchdog 4 s per wait (healthy case: ~2 ms); an expiry is re-run alone in a fresh process before it counts"],
+    trusted=["the in-memory connection (netmem.go: buffered pipe, injected read/write errors, virtual read deadline, quiescence signal) stands for the kernel socket", "goroutine accounting by runtime.Stack filtered for imapclient.(*Client).read, one case at a time per worker process", "watchdog 30 s per wait, poll-to-deadline (healthy case: ~2 ms); an expiry is re-run alone in a fresh process before it counts; stalls meant to end by a timeout use the connection's own virtual read deadline"],
     assumptions=["the caller honours the documented contract: streaming commands are consumed to the end or closed, one consumer at a time", "the server transcript is well-formed up to the cut (malformed input is C11's domain)", "Go scheduler fairness"],
     leanchecker=True,
     timeout={"quick": 900, "thorough": 3600, "widen": 1800},
-    level_text="proof on the model: theorems about the client's blocking structure as a transition system (see the header of lean/GoImap/Props/C10.lean for the list and status); the model is tied to the real client on every run at every byte offset of every transcript, and the property's own predicate (every call returned, Close returned, reader exited, incomplete => error) judges what the implementation did",
-    level_note="Partial (runtime): kernel sockets, TLS and the Go scheduler are below the modelled interface. Trusted: Lean kernel; harness/driver.",
+    level_text="proof on the model: the client's blocking structure as a transition system; proved for all transcripts, cut points, faults and interleavings: every step decreases a measure, an invariant holds in all reachable states, after the fault no state short of the terminal one is stuck (given the caller's contract as an explicit hypothesis), hence every run drains (fault_drains), and a command's result is success only if its tagged completion was fully received (incomplete_is_error); machine-checked counterexamples for the two repaired defects; the model is tied to the real client on every run at every byte offset of every transcript, and the property's own predicate (every call returned, Close returned, reader exited, incomplete => error) judges what the implementation did",
+    level_note="Partial (runtime): kernel sockets, TLS and the Go scheduler's fairness are below the modelled interface; the caller contract (streaming commands consumed, encoder released) is a hypothesis of fault_drains. Trusted: Lean kernel; harness/driver. Status list at the top of lean/GoImap/Props/C10.lean.",
 )
